@@ -836,6 +836,16 @@ func (e *Engine) havocLoop(st *State, li *loopInfo) {
 	na := e.S.Fresh("alloc", "Int")
 	st.assume(fmt.Sprintf("(>= %s %s)", na, st.alloc))
 	st.alloc = na
+	// the ghost `visited` set of a map iteration advanced in this loop
+	for b := range li.body {
+		for _, in := range b.Instrs {
+			if nx, ok := in.(*ssa.Next); ok && !nx.IsString {
+				if g, ok := st.ghost["visited"]; ok {
+					st.ghost["visited"] = term(e.S.Fresh("visited", e.sortOf(g.Typ)), g.Typ)
+				}
+			}
+		}
+	}
 	// ghost variables updated in the loop
 	if fr.contract != nil {
 		for _, at := range fr.contract.Ats {
